@@ -350,8 +350,10 @@ class Model:
         self._entered_buffer()
 
     def _entered_buffer(self):
-        # yytext belongs to the buffer that was left
-        self.more_next = False
+        # yytext belongs to the buffer that was left; what a pending yymore()
+        # means now is not documented: the prefix may be kept or dropped
+        if self.more_next:
+            self.lost_prefix_ok = True
         self.rejecting = False
 
     # ---- ops (top level P, in action O, yywrap W)
@@ -484,8 +486,8 @@ class Model:
                 fb.held = bytearray()
                 fb.bol = True
                 fb.eof = False if fb.kind == 'file' else True
-                if fb is b:
-                    self.more_next = False
+                if fb is b and self.more_next:
+                    self.lost_prefix_ok = True
             self.stat('op-flush')
         elif op == 'DELETE':
             h = ev.get('h')
@@ -511,7 +513,8 @@ class Model:
                 b.fill = True
                 if ev.get('h', -1) >= 0:
                     b.src = ev['h']
-                self.more_next = False
+                if self.more_next:
+                    self.lost_prefix_ok = True   # unspecified: kept or dropped
             else:
                 self.expect_implicit = True
             self.stat('op-' + op.lower())
@@ -645,6 +648,9 @@ class Model:
         self.more_next = False
         # --- what does the reference matcher say?
         exp_ok = False
+        if not self.use_matcher and len(b.held) == 0 and tlen > len(prefix):
+            self.v('phantom', ev, 'token %s delivered although no unread input exists' % thex)
+            return
         if self.use_matcher:
             bolv = b.bol if not self.rejecting else self.tok_bol
             if not self.rejecting:
@@ -675,7 +681,7 @@ class Model:
             else:
                 total, rid = self.alts[self.alt_idx]
             if len(b.held) == 0:
-                self.v('token', ev, 'token delivered although no unread input exists')
+                self.v('phantom', ev, 'token %s delivered although no unread input exists' % thex)
                 return
             if rid == 0:
                 etlen = 1
@@ -727,8 +733,8 @@ class Model:
             chosen = None
             for pf in cands:
                 nl_ = tlen - len(pf)
-                if nl_ < 0:
-                    continue
+                if nl_ < 1:
+                    continue     # every token has at least one new character
                 cand_text = pf + bytes(b.held[:nl_])
                 if len(cand_text) == tlen and common.hexs(cand_text) == thex:
                     chosen = pf
